@@ -8,6 +8,18 @@ COMMON_ASSUME = [
 ]
 
 PROPS = {
+    "C07": {
+        "budget_s": {"quick": 90, "thorough": 1200},
+        "floor": {"quick": 5000, "thorough": 100000},
+        "rule": "planted chain complexes C_0 -> ... -> C_L (L = 1..4, dims 0..8 quick / 0..14, zero-dimensional corners) built as d_i = P_{i+1}^-1 E_i P_i with random unimodular P_i and planted diagonals mixing units and "
+                "torsion from a per-ring palette (2,3,4,6,12,5,9, random and 64-200-bit elements, products) over BigInt, i64, i128, Ratio<i64|BigInt>, FF2, FF<3>, FF<5>, Gauss/Eisenstein over i64|BigInt, Poly<x,Q>, Poly<x,F3>; "
+                "route 1 GenericChainComplex::generate(..).homology(): rank = n - r_in - r_out, torsion ~ non-unit invariant factors of d_in (own SNF), every generator is a cycle, vectorize(gen k) = e_k, boundaries have zero coordinates mod torsion; "
+                "route 2 HomologyCalc::calculate on a middle pair: rank, torsion, d_out*B = 0, F*B = I, F*d_in = 0 mod torsion by oracle products; non-trivial = torsion present or both neighbouring ranks >= 1; distinct = hash of the differentials",
+        "assumptions": COMMON_ASSUME + ["machine-integer rings may overflow in SNF: inconclusive", "polynomial complexes over Q are kept <= 4-dimensional (coefficient growth)"],
+        "technique": "reference-model monitor: planted complexes with homology known by construction; rank/torsion/generators/coordinate maps judged by the oracle's dense arithmetic and textbook SNF",
+        "level_text": "Exploration: tens to hundreds of thousands of planted complexes over 14 Euclidean rings; the answer is known by construction and re-derived by an independent SNF, generators and coordinate maps are re-multiplied exactly. Right level: input property with an exact oracle.",
+        "level_note": "Trusts the planted construction (d^2 = 0 is asserted by the generator) and the oracle SNF; sampled shapes.",
+    },
     "C09": {
         "budget_s": {"quick": 120, "thorough": 1500},
         "floor": {"quick": 20000, "thorough": 300000},
